@@ -110,7 +110,7 @@ m = {
  "setup_cmd": "./run.sh setup",
  "hooks": {
    "guard": "verif",
-   "enable": "no source hooks in /repo: instrumentation is injected at build time with `go build/test -overlay` (virtual in-package test files; for C20 a copy of store/sqlite.go whose database/sql and sync imports are rewritten to gated wrappers, generated by gen_gated.py from the current tree; for the tier-B binary a copy of client/manager.go whose select statement is rewritten by h/cmd/vselgen so that the explorer decides among ready cases) and a `replace` of github.com/nats-io/nats.go in the harness module; /repo is built as-is",
+   "enable": "no source hooks in /repo: instrumentation is injected at build time with `go build/test -overlay` (virtual in-package test files; for C20 a copy of store/sqlite.go whose database/sql and sync imports are rewritten to gated wrappers, generated by gen_gated.py from the current tree; for the tier-B binary copies of client/manager.go, sync.go and rule.go whose select statements are rewritten by h/cmd/vselgen so that the explorer decides among ready cases) and a `replace` of github.com/nats-io/nats.go in the harness module; /repo is built as-is",
    "baseline_off_cmd": "cd /repo && GOFLAGS=-mod=mod go test -p 1 -vet=off -count=1 ./...",
    "source_commits": [],
    "add_only": True,
@@ -118,7 +118,7 @@ m = {
  "engines": [
    {"name": "mc", "path": "h/mc", "serves_properties": sorted(checks), "kind_free_text": "hand-written stateless explorer: exhaustive deviation-bounded DFS over choice sequences (with optional state-key pruning = explicit-state search), process sharding with crash/hang isolation, exhaustive plain enumerations, evidence/replay/known-findings handling"},
    {"name": "natsgo-shim", "path": "shim/natsgo", "serves_properties": ["C01","C02","C03","C04","C05","C06","C07","C08","C09","C13","C15","C20"], "kind_free_text": "deterministic in-process replacement of module github.com/nats-io/nats.go (replace directive in the harness module only): inline / async / controlled delivery"},
-   {"name": "vsel", "path": "h/vsel", "serves_properties": ["C07"], "kind_free_text": "select statements of client/manager.go under explorer control: go/ast source rewrite (h/cmd/vselgen, applied as build overlay) + runtime that inspects channel readiness without receiving and lets the explorer choose among ready cases"},
+   {"name": "vsel", "path": "h/vsel", "serves_properties": ["C02","C07","C08","C13"], "kind_free_text": "select statements of client/manager.go, sync.go and rule.go under explorer control: go/ast source rewrite (h/cmd/vselgen, applied as build overlay) + runtime that inspects channel readiness without receiving and lets the explorer choose among ready cases"},
    {"name": "crash-enumerator", "path": "h/cmd/verifs/c04.go", "serves_properties": ["C04"], "kind_free_text": "strace fault injection: real SIGKILL at every state-changing system call of a real writer process, real recovery on the surviving files"},
  ],
  "checks": [],
